@@ -4,6 +4,7 @@ from __future__ import annotations
 
 import copy
 import json
+import re
 import datetime
 import traceback
 
@@ -90,6 +91,7 @@ REPL = [None, 0, 7, -1, 1.5, True, False, "", "x", [], [1], ["x"], {}, {"a": 1},
         # further value classes: digits that int() refuses, repeat counts beyond the regex engine, mixed key types
         "1\u00b2m", "\u00b2h", "\u2460d", "\u0663m", "+5m", " 5m", {"f|re": "a{99999999999}"}, {"gte": 1, "__k__:1": "x"},
         {"sel": {"f": "x"}, "__k__:1": {"g": 1}, "condition": "not sel", "rules": "any"},
+        {"f|base64": "x\ud800"}, {"f|wide|base64offset": "\udfffy"}, {"f|utf16": "a\ud800"}, "lone\ud800surrogate",
         # boundary numbers and sizes
         {"__k__:1": "x"}, {"__k__:true": 1, "a": 2}, {"__k__:null": "x"}, [{"__k__:1.5": "x"}], {"__k__:4688": {"__k__:1": 1}},
         2 ** 1024, -(10 ** 400), float("inf"), float("nan"), {"gte": float("inf")}, {"gte": 2 ** 1024}, [2 ** 1024, "x"],
@@ -196,6 +198,8 @@ def check_case(case: dict) -> Outcome:
     entry = case["entry"]
     data = decode(case["data"])
     via_yaml = case.get("yaml") if case.get("yaml") == "ruleset" and case["entry"] == "coll" else bool(case.get("yaml"))
+    if via_yaml and re.search(r"\\ud[89a-f][0-9a-f]{2}", json.dumps(case["data"], default=str)):
+        via_yaml = False  # a lone surrogate has no YAML text form: such data can only arrive as parsed data
     if entry == "coll" and not isinstance(data, list):
         out.skipped = "collection input must be a list of documents"
         return out
